@@ -34,11 +34,29 @@ Fixpoint nodup_str (l : list string) : bool :=
 
 Definition seg_sections (seg : segment) : list string := (alloc_sections seg ++ noload_sections seg)%list.
 
-(* the three symbols of a section group are each assigned once *)
+(* how many statements, at any depth, assign the symbol [x] *)
+Fixpoint assign_count (x : string) (s : stmt) : nat :=
+  match s with
+  | SAssign _ _ _ sym _ => if String.eqb sym x then 1 else 0
+  | SAlign sym _ => if String.eqb sym x then 1 else 0
+  | SMaxSelf sym _ => if String.eqb sym x then 1 else 0
+  | SRomAdd _ => if String.eqb "__romPos" x then 1 else 0
+  | SOutSec _ _ _ _ _ body => list_sum (map (assign_count x) body)
+  | SSections body => list_sum (map (assign_count x) body)
+  | _ => 0
+  end.
+
+Definition count_assigns (x : string) (l : list stmt) : nat := list_sum (map (assign_count x) l).
+
+(* exactly one statement, inside the output sections included, assigns [x] *)
+Definition assigned_once_deep (x : string) (l : list stmt) : bool := Nat.eqb (count_assigns x l) 1.
+
+(* the three symbols of a section group are each assigned by exactly one statement (the groups of one
+   output section are statements of its body: a count that looks inside the output sections) *)
 Definition section_names_once (sty : style) (name : string) (l : list stmt) (sec : string) : bool :=
-  defined_once (segment_section_start sty name sec) l &&
-  defined_once (segment_section_end sty name sec) l &&
-  defined_once (segment_section_size sty name sec) l.
+  assigned_once_deep (segment_section_start sty name sec) l &&
+  assigned_once_deep (segment_section_end sty name sec) l &&
+  assigned_once_deep (segment_section_size sty name sec) l.
 
 (* one included segment, against all the statements [l] the link executes: its ROM and VRAM symbols
    are assigned once, its section lists have no duplicate, the symbols of each of its section groups
@@ -133,17 +151,34 @@ Definition ClassSummary (sty : style) (env ext : list (string * Z)) (st' : lstat
 
 (* ---------- C05 at document level ---------- *)
 
-(* one section group of segment [seg] (in its output section [outsec]) in the final state:
-   START <= END, SIZE = END - START, and the placements of the final state contain a block, placed in
-   [outsec] between START and END, which is what the group placed *)
-Definition GroupSummary (sty : style) (st' : lstate) (seg : segment) (outsec : string) (sec : string) : Prop :=
-  exists S E pre new post,
-    val st' (segment_section_start sty (sg_name seg) sec) = Some S /\
-    val st' (segment_section_end sty (sg_name seg) sec) = Some E /\
-    val st' (segment_section_size sty (sg_name seg) sec) = Some (E - S) /\
-    S <= E /\
-    l_placed st' = (pre ++ new ++ post)%list /\
-    Forall (placed_between S E outsec) new.
+(* the section groups [secs] of segment [name], placed in the output section [outsec], read in a symbol
+   table [syms] and a list of placements [placed]: going up from [lo], each group has
+   START <= END and SIZE = END - START, starts at or after the end of the previous one, and brackets a
+   block of the placements (what it placed); the last one ends at or below [hi] *)
+Fixpoint GroupChain (sty : style) (syms : list (string * Z)) (placed : list placement) (name outsec : string)
+         (lo : Z) (secs : list string) (hi : Z) : Prop :=
+  match secs with
+  | [] => lo <= hi
+  | sec :: rest =>
+      exists S E pre new post,
+        lookup (segment_section_start sty name sec) syms = Some S /\
+        lookup (segment_section_end sty name sec) syms = Some E /\
+        lookup (segment_section_size sty name sec) syms = Some (E - S) /\
+        lo <= S /\ S <= E /\
+        placed = (pre ++ new ++ post)%list /\
+        Forall (placed_between S E outsec) new /\
+        GroupChain sty syms placed name outsec E rest hi
+  end.
+
+(* both halves of one segment in the state [st']: the groups of the allocatable sections lie, in order,
+   inside the output section .name, those of the noload sections inside .name.noload *)
+Definition SegmentGroups (sty : style) (st' : lstate) (seg : segment) : Prop :=
+  (exists o, find_sec (alloc_name seg) (l_secs st') = Some o /\ os_noload o = false /\
+             GroupChain sty (l_syms st') (l_placed st') (sg_name seg) (alloc_name seg)
+                        (os_vma o) (alloc_sections seg) (os_vma o + os_size o)) /\
+  (exists o, find_sec (noload_name seg) (l_secs st') = Some o /\ os_noload o = true /\
+             GroupChain sty (l_syms st') (l_placed st') (sg_name seg) (noload_name seg)
+                        (os_vma o) (noload_sections seg) (os_vma o + os_size o)).
 
 (* ---------- sample data: three included segments, two of them in one class ---------- *)
 
